@@ -39,9 +39,53 @@ pub fn dispatch(ctx: &Ctx) -> Rec {
     "C17" => c17::run(ctx),
     "C18" => c18::run(ctx),
     "C07" => c07::run(ctx),
+    "dump-corpus" => dump_corpus(ctx),
     other => {
       eprintln!("unknown property {}", other);
       std::process::exit(64);
     }
   }
+}
+
+/// `mon dump-corpus --set dir=<dir>`: writes the decoder cases of the hostile
+/// corpus as libFuzzer seed files (first byte = target selector).
+pub fn dump_corpus(ctx: &Ctx) -> Rec {
+  use crate::hostile::{self, Target};
+  let dir = ctx.extra.get("dir").cloned().unwrap_or_else(|| "corpus".into());
+  let _ = std::fs::create_dir_all(&dir);
+  let mut rec = Rec::new();
+  let groups = ctx.n(16, 64);
+  let mut n = 0u64;
+  for g in 0..groups {
+    for c in hostile::group(ctx, g) {
+      let sel: u8 = match c.target {
+        Target::SharksTryFrom => 0,
+        Target::AdssFromBytes => 1,
+        Target::StarShareFromBytes => 2,
+        Target::MessageFromBytes => 3,
+        Target::LoadBytes => 4,
+        Target::LoadU32 => 5,
+        Target::AccessStructure => 6,
+        Target::PkLoad => 7,
+        Target::ProofLoad => 8,
+        Target::JsonPoint => 9,
+        Target::JsonEvaluation => 10,
+        Target::GroupShares => 11,
+        _ => continue,
+      };
+      if c.blobs[0].len() > 4096 || n % 7 != 0 {
+        n += 1;
+        continue;
+      }
+      let mut b = vec![sel];
+      b.extend_from_slice(&c.blobs[0]);
+      let name = format!("{}/{:016x}", dir, h64(&[&b]));
+      let _ = std::fs::write(name, b);
+      n += 1;
+      rec.evals += 1;
+    }
+  }
+  rec.case(&1u8);
+  rec.case(&2u8);
+  rec
 }
